@@ -191,7 +191,8 @@ Section Model.
     match m_h m, m_e m, m_L m with
     | Some h, Some e, Some L =>
         if in_domain e L
-        then list_eqb hs (zrange (first_req e L) (Z.to_nat (2 * L))) && (last_req e L <=? h)
+        then (Z.of_nat (length hs) =? 2 * L) && list_eqb hs (zrange (first_req e L) (length hs))
+             && (last_req e L <=? h)
         else true
     | _, _, _ => false
     end.
@@ -272,6 +273,9 @@ Section Model.
     | CAuth refund own => if Bool.eqb refund (negb dp) && own then Some (ans_auth (fst x) refund) else None
     | _ => None
     end.
+  (* a CurrentEpoch call answered with an epoch >= T *)
+  Definition epoch_reached (T : Z) (x : world * call) : Prop :=
+    snd x = CEpoch /\ exists e', w_epoch (fst x) = Some e' /\ T <= e'.
   Definition flat {A} (o : option (option A)) : option A := match o with Some v => v | None => None end.
   Definition obs_height l := flat (latest sel_height l).
   Definition obs_epoch l := flat (latest sel_epoch l).
